@@ -2,6 +2,7 @@ from props import job
 
 PROP = dict(
     claimed=True,
+    technique='rapid: coop-close transaction oracle on simulator-reached channel states (byte identity, interpreter validity, exact outputs); two real ChanClosers negotiating legacy fees with a round bound; RBF-coop state machine driven through ProcessEvent',
     level="exploration",
     rule=("(1) transaction level: a generated C01-C03 schedule (cuts included) is run, all HTLCs are resolved and "
           "drained, both sides are loaded afresh and propose a cooperative close with a generated fee (0, small, "
